@@ -253,6 +253,49 @@ theorem C18_call_effective {R : Type} (body : Assignment → R) (s : Sig) (hwf :
       exact C18_call body s hwf c1 c2 o i o? i? F n1 n2 h1 h2 ha1 ha2 hF hn1 hn2
         (hcompat.imp id (fun h => h n1 n2 hn1 hn2))
 
+/-! ### Positional-only parameters (`def f(a, b, /, c)`; finding F62) -/
+
+/-- No keyword of the call names one of the first `npo` (positional-only) parameters. -/
+def AvoidsPosOnlyNames (npo : Nat) (s : Sig) (c : Call) : Prop :=
+  ∀ p ∈ c.kwargs, (s.posNames.take npo).contains p.1 = false
+
+instance (npo : Nat) (s : Sig) (c : Call) : Decidable (AvoidsPosOnlyNames npo s c) := by
+  unfold AvoidsPosOnlyNames; infer_instance
+
+/-- Full strength over signatures with positional-only parameters (late binding). -/
+def C18_posonly_Full : Prop :=
+  ∀ (npo : Nat) (s : Sig) (c : Call) (o : Bool) (F : Functor), s.wf = true → c.wf = true →
+    AvoidsVarargsName s c → npo ≤ s.pos.length →
+    functorInit s Call.empty o false = .ok F →
+    functorCall true F c none none = pyCallPO npo s c
+
+/-- F62: `def p(a, /)`: `p(a=1)` raises TypeError, `P()(a=1)` returns `a == 1` — pyglove treats a
+positional-only parameter as an ordinary symbolic field. Replayed on the real code (findings F62). -/
+theorem C18_posonly_counterexample : ¬ C18_posonly_Full := by
+  intro h
+  have := h 1 ⟨[⟨0, none⟩], none, [], none⟩ ⟨[], [(0, 1)]⟩ false _ (by decide) (by decide)
+    (by intro p hp; simp) (by decide) (functorInit_empty _ false false)
+  revert this
+  decide
+
+/-- What holds with positional-only parameters: every call that does not pass one of them by
+keyword behaves as the language prescribes — late binding, construction-time binding and direct
+construction of a symbolized class. -/
+theorem C18_posonly_partial {R : Type} (body : Assignment → R) (npo : Nat) (s : Sig) (hwf : s.wf = true)
+    (c : Call) (o i : Bool) (F0 : Functor) (hc : c.wf = true) (ha : AvoidsVarargsName s c)
+    (hpo : AvoidsPosOnlyNames npo s c)
+    (hF0 : functorInit s Call.empty o false = .ok F0) :
+    (functorCall true F0 c none none).map body = (pyCallPO npo s c).map body ∧
+    (match functorInit s c o i with
+     | .error e => (Except.error e : Except PyErr Assignment)
+     | .ok F => functorCall true F Call.empty none none).map body = (pyCallPO npo s c).map body ∧
+    (classInit s c).map body = (pyCallPO npo s c).map body := by
+  rw [pyCallPO_eq npo s c hpo]
+  exact ⟨C18_late body s hwf c o F0 hc ha hF0, C18_construct_total body s hwf c o i hc ha,
+    C18_direct body s hwf c hc ha⟩
+
+example : AvoidsPosOnlyNames 1 ⟨[⟨0, none⟩, ⟨1, none⟩], none, [], none⟩ ⟨[7], [(1, 2)]⟩ := by decide
+
 /-! ### Non-vacuity -/
 
 /-- `def f(a, b=2, *args, c, d=4, **kwargs)`: names a=0 b=1 c=2 d=3 args=4 kwargs=5, x=6. -/
